@@ -337,6 +337,11 @@ func e1Scens(prop, tier string) []e1Scen {
 				}
 			}
 		}
+		// Low-Latency, one stream: observed again from the Write after the failed one on (the open segment exists again)
+		for fa := 1; fa <= 9; fa++ {
+			cfg := mcfg("ll", true, 7, "h264")
+			out = append(out, e1Scen{Prop: prop, Cfg: cfg, Alpha: word, Mode: "fault", Len: 4 * (fa + 9), FaultAt: fa, Name: fmt.Sprintf("numbering-after-rotation-fault-%d", fa)})
+		}
 		for _, variant := range []string{"mpegts", "fmp4"} {
 			for _, codec := range []string{"h264", "h265", "av1"} {
 				if variant == "mpegts" && codec != "h264" {
